@@ -1110,6 +1110,51 @@ func endToEnd(r *vkit.R) {
 	r.Require(r.Counter("end_to_end_batches_with_an_even_number_of_ready_endpoints") >= int64(n), "too few end-to-end batches with an even number of ready endpoints")
 }
 
+// duplicateInSubset: the policy's upstream subset names one endpoint TWICE (validation only demands that every entry is a
+// server; a patch that appends instead of replacing produces such lists). The statement speaks of "each of its k
+// endpoints": the endpoints are the distinct ones, so each of them gets floor(N/k)..ceil(N/k) of N consecutive picks and
+// none is favoured for being written twice.
+func duplicateInSubset(r *vkit.R) {
+	n := tierN(r, 24, 240)
+	r.Parallel(n, 6, func(ci int, g *vkit.Rand) {
+		st := &state{Disabled: map[string]bool{}, Healthy: map[string]bool{}}
+		perm := g.Perm(len(pool))
+		ns := g.Range(2, 5)
+		for i := 0; i < ns; i++ {
+			st.Servers = append(st.Servers, pool[perm[i]])
+			st.Healthy[pool[perm[i]]] = true
+		}
+		distinct := append([]string(nil), st.Servers[:g.Range(2, ns)]...)
+		g.Shuffle(distinct)
+		dup := distinct[g.Intn(len(distinct))]
+		withDup := append([]string(nil), distinct...)
+		pos := g.Intn(len(withDup) + 1)
+		withDup = append(withDup[:pos:pos], append([]string{dup}, withDup[pos:]...)...)
+		// the real object carries the duplicate; the model (and the oracle) knows the distinct endpoints
+		st.Policies = []polSpec{{Subset: withDup, Res: "r0"}}
+		b, err := newBed(st)
+		if err != nil {
+			r.Inconclusive("CreateClusterInfo failed: " + err.Error())
+			return
+		}
+		defer b.close()
+		model := st.clone()
+		model.Policies[0].Subset = distinct
+		k := len(distinct)
+		N := k * g.Range(2, 40)
+		P := g.PickInt(pickerChoices)
+		lg := runBatch(b, "r0", N, P, g.Bool(), nil, nil, resyncOpt{})
+		lg.tag = "+endpoint-listed-twice-in-subset"
+		lg.seq = nil // the window argument is about the distinct endpoints' counts only
+		r.Eval(1)
+		r.Count("picks", N)
+		r.Count("batches_on_a_subset_that_lists_an_endpoint_twice", 1)
+		r.Distinct(vkit.Hash64("dup", strings.Join(withDup, ","), fmt.Sprint(N, P)))
+		judge(r, model, 0, N, P, true, lg, fmt.Sprintf("duplicate-in-subset case=%d subset as written=%v", ci, withDup))
+	})
+	r.Require(r.Counter("batches_on_a_subset_that_lists_an_endpoint_twice") >= int64(n), "too few batches on a subset that lists an endpoint twice")
+}
+
 // addDuringPicks: pickers are running (fresh picker per pick, as every request does) WHILE a sync adds a server to a
 // policy without subset. The picks made during the sync are not judged (the ready set is changing). Afterwards the new
 // endpoint is ready and a stable window opens: every ready endpoint, including the new one, must get its share
@@ -1464,6 +1509,7 @@ func TestCheck(t *testing.T) {
 		addDuringPicks(r)
 		foreignChanges(r)
 		cursorPressure(r)
+		duplicateInSubset(r)
 		endToEnd(r)
 		vkit.Sched.Enable(seed+1, 0.01, 0.002, 0.00005)
 		largeNoSubset(r)
